@@ -20,7 +20,7 @@ Print Assumptions stack_balanced.
 (* ---------------------------------------------------------------------------------------- *)
 (* 2. the top of the coded stack is the current template rule of section 5.6 *)
 
-(* with the two repairs of the evaluation of top-level variables proposed in props/C10r.findings.txt:
+(* with the two repairs of the evaluation of top-level variables (fbf271b, 59004ef in /repo):
    every execution tree, at every watched instruction and every xsl:apply-imports, and the
    no-current-template error is raised exactly where section 5.6 says *)
 Theorem current_rule_is_section_5_6 :
@@ -42,13 +42,20 @@ Proof. exact sim_lemma. Qed.
 Print Assumptions current_rule_is_section_5_6_partial.
 
 (* ... for the tree the facts were generated from (does not type-check when the translator finds the
-   shape of ElemTemplate::startElement from before 9c1f5e3) *)
+   shape of ElemTemplate::startElement from before 9c1f5e3).  The guard is needed only while one of
+   the two repairs of the evaluation of top-level variables (fbf271b, 59004ef) is missing *)
 Theorem current_rule_is_section_5_6_this_tree :
-  forall i h s, wf h i = true -> compat h (itop s) = true -> glob_ok gen_variant h (top s) i = true ->
+  forall i h s, wf h i = true -> compat h (itop s) = true ->
+  gen_global_null && gen_global_direct = true \/ glob_ok gen_variant h (top s) i = true ->
   forall s' o ok, walk gen_variant i s = (s', o, ok) ->
   (o, ok) = spec h (top s) i /\ (ok = true -> s' = s).
-Proof. exact (sim_lemma gen_variant eq_refl). Qed.
+Proof. exact (variant_lemma gen_variant eq_refl). Qed.
 Print Assumptions current_rule_is_section_5_6_this_tree.
+
+(* this tree has both repairs: the statement above is the full one, for every execution tree *)
+Example this_tree_has_both_repairs : gen_global_null && gen_global_direct = true.
+Proof. reflexivity. Qed.
+Print Assumptions this_tree_has_both_repairs.
 
 (* the state a transformation starts in: reset(), then execute() of the rule for the root node *)
 Definition s_start : st := push_i InvNull st_reset.
@@ -73,7 +80,7 @@ Theorem current_rule_is_section_5_6_before_fix_witness :
 Proof. vm_compute. repeat split. Qed.
 Print Assumptions current_rule_is_section_5_6_before_fix_witness.
 
-(* the code now, first use of a top-level variable inside a rule: its content sees that rule
+(* the code before fbf271b / 59004ef ([code_now] below names the variant of 9c1f5e3), first use of a top-level variable inside a rule: its content sees that rule
    (section 5.6: null, so xsl:apply-imports is the error) ... *)
 Definition global_inherits_tree : inst :=
   ITemplate (rule 1 []) false [IText 10; IGlobal false [IImports 1 0 None None []]].
